@@ -158,6 +158,7 @@ def step (st : St) (toks : List String) : St × String :=
         | none => "panic" | some b => boolStr b)
     | _, _ => (st, "bad-op")
   | "GRID" :: tgs => (st, gridStr st tgs)
+  | ["LINEFILTER"] => (st, "ok")     -- a forwarding `LogLineFilter`: no effect on the decisions
   | "NOTE" :: _ => (st, "ok")
   | ["LOG", lvl, t, m, mt, _msg] =>
     match lvl.toNat?, hexToText t, (if m = "_" then some none else (hexToText (m.drop 1).toString).map some) with
